@@ -124,8 +124,10 @@ QUICK = [("list", 3), ("list", 4), ("strict", 0)]
 
 def obligations(tier, seed):
     T = 150 if tier == "quick" else 900
-    obs = opcheck.op_obligations(tier, QUICK, ops.KINDS, ["basic", "list", "strict", "title", "fixed", "iso", "table", "docmarks"], T)
-    prim = [("list", 1), ("list", 7)] if tier == "quick" else [("list", i) for i in range(12)] + [("strict", 0), ("table", 0), ("iso", 0)]
+    obs = opcheck.op_obligations("quick" if tier == "quick" else "explicit", QUICK if tier == "quick" else
+                                 [("list", 3), ("list", 4), ("list", 1), ("strict", 0), ("iso", 1), ("table", 0)], ops.KINDS, [], T,
+                                 xs_quick=3 if tier == "quick" else 99, step_quick=4 if tier == "quick" else 3)
+    prim = [("list", 1), ("list", 7)] if tier == "quick" else [("list", i) for i in (1, 2, 4, 7, 11)] + [("strict", 0), ("table", 0), ("iso", 0)]
     for (sn, i) in prim:
         p = {"schema": sn, "doc": i, "prim": True}
         if tier == "quick":
